@@ -70,5 +70,12 @@ LabelCases == {CaseOf("C16/labels/" \o a \o "-" \o b \o "-" \o c,
                       <<Func("fa", <<Param("n", "int")>>, <<>>, Struct(a, "fa", "n")), Func("fb", <<Param("n", "int")>>, <<>>, Struct(b, "fb", "n") \o <<ExprS(CallE("fa", <<Bin("+", Var("n"), I(1))>>))>>),
                         Def1("g", I(2)), ExprS(CallE("fa", <<I(2)>>)), ExprS(CallE("fb", <<I(0)>>))>> \o Struct(c, "top", "g") \o <<ExprS(CallE("fb", <<I(1)>>)), L("end")>>)
                : a \in Structs, b \in Structs, c \in Structs}
-ASSUME ndJsonSerialize("fam.ndjson", SetToSeq(Empty \cup DeepCases \cup FuncCases \cup Builtins \cup Shapes \cup LabelCases))
+\* top-level code before, between and after function definitions (the functions hold fewer, as many or more structures than the code around them)
+StructN(k, tag, v) == IF k = "none" THEN <<L(tag \o "-only")>> ELSE Struct(k, tag, v)
+Interleaved == {CaseOf("C16/interleaved/" \o t1 \o "-" \o a \o "-" \o t2 \o "-" \o b,
+                       <<Def1("g", I(1))>> \o Struct(t1, "ta", "g")
+                       \o <<Func("fa", <<Param("n", "int")>>, <<>>, StructN(a, "fa", "n"))>> \o Struct(t2, "tb", "g")
+                       \o <<Func("fb", <<Param("n", "int")>>, <<>>, StructN(b, "fb", "n")), ExprS(CallE("fa", <<I(1)>>)), ExprS(CallE("fb", <<I(2)>>))>> \o Struct("if", "tc", "g") \o <<L("end")>>)
+                : t1 \in Structs, a \in Structs \cup {"none"}, t2 \in Structs, b \in {"none", "ifif"}}
+ASSUME ndJsonSerialize("fam.ndjson", SetToSeq(Empty \cup DeepCases \cup FuncCases \cup Builtins \cup Shapes \cup LabelCases \cup Interleaved))
 =============================================================================
